@@ -228,6 +228,11 @@ fn main() {
     s.sample(json!({"type":"Unpaired<f64>","history":["FromIter([A(0.1), B(1048576.0)])","Clone(0)","Add(0, 1)"],"invariant":"side a holds exactly the A observations, side b the B observations"}));
     s.sample(json!({"type":"proportion::Stats","history":["Extend(0,[true,false])","AddAssign(0,0)"],"invariant":"== Stats::new(4, 2)"}));
     rep.rule = format!("BFS over pools of <=3 real registers, <=6 observations per register, depth {} ({} for proportion/quantile Stats), for Arithmetic<f64,f32>, Geometric, Harmonic, Paired, Unpaired{}, proportion::Stats, quantile::Stats; actions New, Append(r,v), Extend(r,chunk), FromIter(chunk), Clone(r), Add(i,j), AddAssign(i,j) incl. i=j, chunks = empty, singletons, all pairs over 3 values, one triple; every new state: each register against its model (count, mean, CIs vs exact statistics and vs one batch from_iter of the sorted model), queries issued twice and Debug rendering unchanged; plus long histories (2e4..2e5 observations per type delivered by from_iter / one by one / chunked extend / left fold / right fold / balanced reduction of 100-element registers, and the one-shot ci entry points) and the bulk entry points (from_iter, extend, extend x2) at every size 2^k-1, 2^k, 2^k+1 up to 2^17..2^18; distinct by (type, model size, observers, non-zero compensation)", tier.pick(4, 5), tier.pick(5, 8), tier.pick("", " (also f32)"));
+    let sr_path = mc::report::verif_root().join("evidence").join("C09.stateright.json");
+    match std::fs::read_to_string(&sr_path).ok().and_then(|t| serde_json::from_str::<Value>(&t).ok()) {
+        Some(v) => rep.note("second_engine_stateright", v),
+        None => rep.note("second_engine_stateright", json!("not run in this invocation (./run.sh C09 runs it; see checks/c09.sh)")),
+    }
     rep.assume("interleavings inside a stats-ci call are not explored: the crate has no shared mutable state (forbid(unsafe_code), no interior mutability, one immutable lazy_static); schedules are explored at the caller level by the loom harness");
     rep.assume("the Debug rendering (all private fields, round-trip float formatting) is the injective state key");
     // (only meaningful while the Debug rendering exposes the compensation term by that name)
